@@ -732,15 +732,22 @@ char* MemoryLeakDetector::reallocMemory(TestMemoryAllocator* allocator, char* me
 #endif
     if (sizeCannotBeTrackedWithoutOverflow(size)) return NULLPTR;
 
+    MemoryLeakDetectorNode* node = NULLPTR;
     if (memory) {
-        MemoryLeakDetectorNode* node = memoryTable_.removeNode(memory);
+        node = memoryTable_.removeNode(memory);
         if (node == NULLPTR) {
             outputBuffer_.reportDeallocateNonAllocatedMemoryFailure(file, line, allocator, reporter_);
             return NULLPTR;
         }
-        checkForCorruption(node, file, line, allocator, allocatNodesSeperately);
+        /* only check here; a separately allocated record is released below, once the new block exists */
+        checkForCorruption(node, file, line, allocator, false);
     }
-    return reallocateMemoryAndLeakInformation(allocator, memory, size, file, line, allocatNodesSeperately);
+    char* new_memory = reallocateMemoryAndLeakInformation(allocator, memory, size, file, line, allocatNodesSeperately);
+    if (node) {
+        if (new_memory == NULLPTR) memoryTable_.addNewNode(node); /* the old block is still valid: keep it tracked */
+        else if (allocatNodesSeperately) allocator->freeMemoryLeakNode((char*) node);
+    }
+    return new_memory;
 }
 
 void MemoryLeakDetector::ConstructMemoryLeakReport(MemLeakPeriod period)
